@@ -376,6 +376,19 @@ def X_execute_task_tail(ctx):
                 subset_shown = True
                 if has_prev:
                     good_witness += 1
+        # the same test on whole sets: new.is_subset(&prev) / prev.is_superset(&new)
+        for a in p.events:
+            bf = bool_fact(a)
+            if not bf or bf[0][0] != 'call' or len(bf[0][2]) != 2:
+                continue
+            nm = norm_callee(bf[0][1])
+            x, y = bf[0][2]
+            newset = lambda t: mentions_field(t, 'IncarnationAccesses.write_set') and not mentions_field(t, 'TransactionResult.write_set')
+            prevset = lambda t: mentions_field(t, 'TransactionResult.write_set') and not mentions_field(t, 'IncarnationAccesses.write_set')
+            if ((nm.endswith('::is_subset') and newset(x) and prevset(y)) or (nm.endswith('::is_superset') and prevset(x) and newset(y))) and bf[1] is True:
+                subset_shown = True
+                if has_prev:
+                    good_witness += 1
         if not has_prev or not subset_shown:
             bad.append(p)
         if has_prev and any(e.d['outcome'] == 'true' for e in cont):
@@ -387,45 +400,54 @@ def X_execute_task_tail(ctx):
     ctx.ob('N4', f, 'anchor:new-location-test', good_witness >= 1,
            'no path returns the validation task after testing new write set ⊆ previous write set (HashSet::contains on the previous result\'s write_set)',
            site=f.loc(f.b['lo']))
-    # X1 stale-write removal: for each location of the previous write set not in the new one, own entry removed
+    # X1 stale-write removal: for each location of the previous write set not in the new one, own entry removed.
+    # "location is stale" is established either per location (`!new.contains(loc)` for a loc of the previous set) or
+    # by iterating `prev.difference(&new)` (a for loop or for_each — the engine gives both the same shape)
+    def stale_points(p):
+        out = []
+        for i, a in enumerate(p.events):
+            if a.kind != 'atom':
+                continue
+            t = a.d['term']
+            bf = bool_fact(a)
+            if bf and bf[0][0] == 'call' and callee_matches(bf[0][1], '::contains') and len(bf[0][2]) == 2 \
+                    and mentions_field(bf[0][2][0], 'IncarnationAccesses.write_set') and mentions_field(bf[0][2][1], 'TransactionResult.write_set') and bf[1] is False:
+                out.append((i, strip(bf[0][2][1])))
+            if t[0] == 'discr' and t[1][0] == 'call' and t[1][1].endswith('::next') and a.d['outcome'] == 'Some':
+                d = [c for c in calls_in(t[1]) if norm_callee(c[1]).endswith('::difference') and len(c[2]) == 2
+                     and mentions_field(c[2][0], 'TransactionResult.write_set') and mentions_field(c[2][1], 'IncarnationAccesses.write_set')
+                     and not mentions_field(c[2][0], 'IncarnationAccesses.write_set')]
+                if d:
+                    out.append((i, strip(('field', ('down', t[1], 'Some'), 'std::option::Option::Some.0'))))
+        return out
     rem_paths = 0
-    bad_rem = []
+    bad_rem, bad = [], []
     for p in att:
-        rem = [e for e in p.events if e.kind == 'call' and 'BTreeMap' in e.d['callee'] and e.d['callee'].endswith('::remove')
-               and has_call(e.d['args'][0], '~DashMap')]
+        pts = stale_points(p)
+        rem = [e for e in p.events if e.kind == 'call' and 'BTreeMap' in e.d['callee'] and e.d['callee'].endswith('::remove') and has_call(e.d['args'][0], '~DashMap')]
         for e in rem:
             i = idx_of(p, e)
-            # guarded by contains(new write set, loc) == false
-            g = [a for a in p.events[:i] if a.kind == 'atom' and a.d['term'][0] == 'call' and callee_matches(a.d['term'][1], '::contains')
-                 and mentions_field(a.d['term'][2][0], 'IncarnationAccesses.write_set')
-                 and mentions_field(a.d['term'][2][1], 'TransactionResult.write_set')]
             key_ok = len(e.d['args']) >= 2 and is_field(strip(e.d['args'][1]), 'TxVersion.txid')
-            if not g or g[-1].d['outcome'] != 'false' or not key_ok:
+            est = [loc for j, loc in pts if j < i and (mentions(strip(e.d['args'][0]), loc) or any(mentions(strip(e.d['args'][0]), s_) for s_ in [loc]))]
+            if not est or not key_ok:
                 bad_rem.append(e)
             else:
                 rem_paths += 1
+        for j, loc in pts:
+            nxt = p.events[j + 1:j + 14]
+            getm = [x for x in nxt if is_call(x, '::get_mut') and mentions_field(x.d['args'][0], 'mv_memory') and mentions(strip(x.d['args'][1]), loc)]
+            if not getm:
+                bad.append(p)
+                continue
+            k = idx_of(p, getm[0])
+            somes = [x for x in p.events[k:k + 4] if option_fact(x) and option_fact(x)[1] == 'Some' and strip(option_fact(x)[0]) == strip(getm[0].d['result'])]
+            if somes and not [x for x in p.events[k:k + 10] if x.kind == 'call' and x.d['callee'].endswith('::remove')]:
+                bad.append(p)
     ctx.count('X1.stale-removal-paths', rem_paths)
     ctx.ob('X1', f, 'stale-write-removal-present', rem_paths >= 1 and not bad_rem,
-           f'removal paths={rem_paths}; ' + '; '.join(f'{site(f, e)} remove not guarded by !new_write_set.contains(loc) or key is not own txid' for e in bad_rem[:3]),
+           f'removal paths={rem_paths}; ' + '; '.join(f'{site(f, e)} removal of an entry whose location was not shown to be in previous∖new write set, or key is not own txid' for e in bad_rem[:3]),
            site=f.loc(f.b['lo']),
            what='an entry of a location the new incarnation no longer writes must leave MV memory, otherwise later readers resolve to a value in-order execution never produced')
-    # a path that iterates the previous write set and finds a location absent from the new one must remove
-    bad = []
-    for p in att:
-        for i, a in enumerate(p.events):
-            if a.kind == 'atom' and a.d['term'][0] == 'call' and callee_matches(a.d['term'][1], '::contains') \
-                    and mentions_field(a.d['term'][2][0], 'IncarnationAccesses.write_set') \
-                    and mentions_field(a.d['term'][2][1], 'TransactionResult.write_set') and a.d['outcome'] == 'false':
-                nxt = p.events[i + 1:i + 12]
-                getm = [x for x in nxt if is_call(x, '::get_mut') and mentions_field(x.d['args'][0], 'mv_memory')]
-                if not getm:
-                    bad.append(p)
-                    continue
-                # if the location has an MV entry, remove must follow
-                j = idx_of(p, getm[0])
-                somes = [x for x in p.events[j:j + 4] if x.kind == 'atom' and x.d['term'][0] == 'discr' and x.d['outcome'] == 'Some']
-                if somes and not [x for x in p.events[j:j + 10] if x.kind == 'call' and x.d['callee'].endswith('::remove')]:
-                    bad.append(p)
     ctx.ob('X1', f, 'stale-location-always-removed', not bad,
            f'{len(bad)} path(s) see a previously written location missing from the new write set without removing the own MV entry',
            site=f.loc(f.b['lo']), what='see stale-write-removal-present')
@@ -993,7 +1015,7 @@ def L4_loops_observe_abort(ctx):
             # blocked() may return true only on paths where is_aborted() == false was decided
             bad = []
             for p in cps:
-                ret = [e for e in p.events if e.kind == 'ret'][0].d['value']
+                ret = fold_bool([e for e in p.events if e.kind == 'ret'][0].d['value'])
                 ab = [e for e in p.events if e.kind == 'atom' and e.d['term'][0] == 'call' and callee_matches(e.d['term'][1], 'is_aborted')]
                 can_block = not (ret[0] == 'const' and ret[1] == 'false')
                 if can_block and not any(a.d['outcome'] == 'false' for a in ab):
